@@ -375,6 +375,52 @@ class ZoneFn:
                 return self.iter_container(x['args'][0], depth + 1)
         return None
 
+    def iter_len(self, op, depth=0):
+        """number of items an iterator operand yields, when it is a container / range seen through length-preserving adaptors"""
+        if op['k'] not in ('copy', 'move') or depth > 10:
+            return None
+        pl = op['pl']
+        if any(p['k'] != 'deref' for p in pl.get('p', [])):
+            return None
+        l = pl['l']
+        ty = self.body.local_ty(l).replace('&mut ', '').lstrip('&').strip()
+        if ty.startswith(('[', 'std::vec::Vec<')):
+            return self.len_of_place(pl)
+        d = self.single_def(l)
+        if d is None:
+            return None
+        kind, bi, x = d
+        if kind == 'assign' and not x['dst'].get('p'):
+            rv = x['rv']
+            if rv['k'] == 'use' and rv['op']['k'] in ('copy', 'move'):
+                return self.iter_len(rv['op'], depth + 1)
+            if rv['k'] in ('ref', 'rawptr'):
+                return self.iter_len({'k': 'copy', 'pl': rv['pl']}, depth + 1)
+            if rv['k'] == 'agg' and rv.get('name') == 'std::ops::Range' and len(rv.get('ops', [])) == 2:
+                a, b = self.term_op(rv['ops'][0]), self.term_op(rv['ops'][1])
+                return tsub(b, a)
+            return None
+        if kind == 'call' and x['args']:
+            cal = x.get('callee') or ''
+            if cal in ('core::slice::<impl [T]>::iter', 'core::slice::<impl [T]>::iter_mut', 'std::iter::IntoIterator::into_iter', 'std::iter::Iterator::copied',
+                       'std::iter::Iterator::cloned', 'std::iter::Iterator::by_ref', 'std::ops::Deref::deref', 'std::vec::Vec::<T, A>::as_slice',
+                       'std::iter::Iterator::map', 'std::iter::Iterator::enumerate', 'std::iter::Iterator::rev', 'std::iter::Iterator::inspect',
+                       'std::iter::Iterator::peekable'):
+                return self.iter_len(x['args'][0], depth + 1)
+            if cal in ('std::iter::Iterator::zip', 'std::iter::zip') and len(x['args']) == 2:
+                a, b = self.iter_len(x['args'][0], depth + 1), self.iter_len(x['args'][1], depth + 1)
+                if a is not None and a == b:
+                    return a
+                if a is not None and b is not None:
+                    if self.prove_le(a, b, bi):
+                        return a
+                    if self.prove_le(b, a, bi):
+                        return b
+                return None
+            if cal in ('core::slice::<impl [T]>::chunks_exact',) and len(x['args']) == 2:
+                return None
+        return None
+
     def elem_sym_of_desc(self, d):
         if d is None:
             return None
@@ -603,6 +649,28 @@ class ZoneFn:
             return r
         if base == 'Mul' and a is not None and b is not None and a[0] is None and b[0] is None:
             return (None, a[1] * b[1])
+        if base in ('Div', 'Rem') and a is not None and b is not None and b[0] is None and b[1] >= 1:
+            if a[0] is None:
+                return (None, a[1] // b[1] if base == 'Div' else a[1] % b[1])
+            r = self._opaque(l)
+            ub = (self.sym_ub(a[0]) + a[1]) // b[1] if base == 'Div' else b[1] - 1
+            if 0 <= ub <= UMAX:
+                self.global_facts.append((None, r, (None, ub)))
+                self.sym_bound[r[0]] = ub
+            self.global_facts.append((bi, r, a))          # x / c <= x,  x % c <= x
+            self.sym_le[r[0]] = a
+            return r
+        if base == 'Mul' and a is not None and b is not None and (a[0] is None) != (b[0] is None):
+            # constant * symbolic: an opaque value with the scaled upper bound of the symbolic factor
+            c, x = (a[1], b) if a[0] is None else (b[1], a)
+            r = self._opaque(l)
+            ub = c * (self.sym_ub(x[0]) + x[1])
+            if 0 <= ub <= UMAX:
+                self.global_facts.append((None, r, (None, ub)))
+                self.sym_bound[r[0]] = ub
+            if c >= 1:
+                self.global_facts.append((bi, x, r))      # x <= c * x
+            return r
         return None
 
     def _payload_term(self, pl):
@@ -858,6 +926,10 @@ class ZoneFn:
                 return self.za.vec_fixed_len(self, l)
             if (t.get('callee') or '').endswith('vec::from_elem') and len(t['args']) == 2:
                 return self.term_op(t['args'][1])      # vec![x; n] that is never grown or shrunk
+            if (t.get('callee') or '') == 'std::iter::Iterator::collect' and t['args']:
+                n = self.iter_len(t['args'][0])        # one element per element of the source (length-preserving adaptors only)
+                if n is not None:
+                    return n
             r = self.za.call_retlen(self, t, ())
             if r is None and l not in self.mut_roots:
                 ty = self.body.local_ty(l)
@@ -1053,10 +1125,21 @@ class ZoneFn:
         le = lambda x, y: [(x, y)]
         lt = lambda x, y: [(tadd(x, 1), y)]
         eq = lambda x, y: [(x, y), (y, x)]
+        def ne(x, y):
+            # x != y carries a bound only against the ends of the unsigned range
+            if y[0] is None and y[1] == 0:
+                return [((None, 1), x)]
+            if x[0] is None and x[1] == 0:
+                return [((None, 1), y)]
+            if y[0] is None and y[1] == UMAX:
+                return [(x, (None, UMAX - 1))]
+            if x[0] is None and x[1] == UMAX:
+                return [(y, (None, UMAX - 1))]
+            return []
         if op == 'Eq':
-            return eq(a, b), []
+            return eq(a, b), ne(a, b)
         if op == 'Ne':
-            return [], eq(a, b)
+            return ne(a, b), eq(a, b)
         if op == 'Lt':
             return lt(a, b), le(b, a)
         if op == 'Le':
